@@ -279,11 +279,13 @@ def free_scenarios(tier="quick"):
     K6 = [1, 2, 3, 4, 5, 6]
     scs = _free_scenarios(K6)
     if tier == "thorough":
+        # more executions, not longer ones: the observers' cost grows faster than linearly with the number of
+        # values in ONE trace, so the amplifiers are repeated (each repetition is a fresh cache and trace)
         for sc in scs:
-            if sc["name"].startswith("hotkey"):
-                sc["opsPer"] *= 8
-            if sc["name"] == "sweeprace":
-                sc["opsPer"] *= 4
+            if sc["name"].startswith("hotkey") or sc["name"] in ("admitrace", "clearrace", "tight-yield"):
+                sc["repeat"] = 6 * sc.get("repeat", 1)
+            if sc["name"] in ("sweeprace", "closesweep"):
+                sc["repeat"] = 3
     return scs
 
 
@@ -305,14 +307,16 @@ def _free_scenarios(K6):
          "maxCostOps": True, "ttls": [1, 4], "costs": [1, 2, 3], "ample": False, "sleep": True},
         # contention amplifiers: many goroutines on one or two keys of one shard, so that a critical section that was
         # split (lock released and re-taken, check outside the lock) is entered by a second goroutine in the gap
-        {"name": "hotkey", "cfg": _hc([1, 2], MaxCost=1000, BufCap=64), "goroutines": 16, "opsPer": 300, "clear": False,
+        {"name": "hotkey", "cfg": _hc([1, 2], MaxCost=1000, BufCap=64), "goroutines": 12, "opsPer": 90, "clear": False,
          "maxCostOps": False, "ttls": [], "costs": [1], "ample": True, "sleep": False, "yield": True},
-        {"name": "hotkey-clear", "cfg": _hc([1, 257, 513], MaxCost=1000, BufCap=64), "goroutines": 12, "opsPer": 200, "clear": True,
+        {"name": "hotkey-clear", "cfg": _hc([1, 257, 513], MaxCost=1000, BufCap=64), "goroutines": 10, "opsPer": 100, "clear": True,
          "maxCostOps": False, "ttls": [], "costs": [1], "ample": True, "sleep": False, "yield": True},
-        {"name": "hotkey-collide", "cfg": _hc([1, 2], "CollHash", "CollConf", MaxCost=1000, BufCap=64), "goroutines": 12, "opsPer": 250,
-         "clear": False, "maxCostOps": False, "ttls": [1, 5], "costs": [1], "ample": True, "sleep": False, "yield": True},
+        {"name": "hotkey-collide", "cfg": _hc([1, 2], "CollHash", "CollConf", MaxCost=1000, BufCap=64), "goroutines": 10, "opsPer": 100,
+         "clear": False, "maxCostOps": False, "ttls": [1, 5], "costs": [1], "ample": True, "sleep": False, "yield": True, "repeat": 3},
         {"name": "sweeprace", "cfg": _hc([1, 2, 3], MaxCost=100000, BufCap=64, D=1), "goroutines": 6, "opsPer": 150, "clear": False,
          "maxCostOps": False, "ttls": [1, 1, 2, 0, 30], "costs": [1], "ample": True, "sleep": True, "pattern": "sweeprace", "yield": True},
+        {"name": "closesweep", "cfg": _hc(list(range(1, 41)), MaxCost=100000, BufCap=256, D=1), "goroutines": 1, "opsPer": 1, "clear": False,
+         "maxCostOps": False, "ttls": [1], "costs": [1], "ample": True, "sleep": False, "pattern": "closesweep", "yield": False},
         {"name": "clearrace", "cfg": _hc(list(range(215, 256)), MaxCost=100000, BufCap=64), "goroutines": 6, "opsPer": 160, "clear": True,
          "maxCostOps": False, "ttls": [], "costs": [1], "ample": True, "sleep": False, "pattern": "clearrace", "yield": True},
         {"name": "admitrace", "cfg": _hc([1, 2, 3], MaxCost=2, BufCap=8, numCounters=16), "goroutines": 8, "opsPer": 250, "clear": False, "maxCostOps": False,
